@@ -419,3 +419,44 @@ func (p *Program) StoredOnlyInScan(key string, allowed []string) []string {
 	}
 	return bad
 }
+
+// FieldIsScan: every store to the function-valued struct field key, anywhere in
+// the verified packages, stores the named top-level function (so a call
+// through the field is a call of that function).
+func (p *Program) FieldIsScan(key, target string) []string {
+	var bad []string
+	for fname, fn := range p.Funcs {
+		for _, b := range fn.Blocks {
+			for _, in := range b.Instrs {
+				st, isStore := in.(*ssa.Store)
+				if !isStore {
+					continue
+				}
+				fa, isFA := st.Addr.(*ssa.FieldAddr)
+				if !isFA {
+					continue
+				}
+				pt, isP := fa.X.Type().Underlying().(*types.Pointer)
+				if !isP {
+					continue
+				}
+				stt, isS := pt.Elem().Underlying().(*types.Struct)
+				if !isS {
+					continue
+				}
+				if p.TypeStr(pt.Elem(), nil)+"."+stt.Field(fa.Field).Name() != key {
+					continue
+				}
+				v := st.Val
+				if ct, ok := v.(*ssa.ChangeType); ok {
+					v = ct.X
+				}
+				f, isFn := v.(*ssa.Function)
+				if !isFn || p.FuncName(f) != target {
+					bad = append(bad, fmt.Sprintf("%s stores something other than %s to %s", fname, target, key))
+				}
+			}
+		}
+	}
+	return bad
+}
